@@ -33,10 +33,10 @@ type Concrete struct {
 	Phases    [][]byte
 	Setup     func(be *rec.Backend)
 	EOF       bool
-	Abort     bool // with EOF: tear the transport down instead of an orderly close
-	IdleAuth  bool // nothing is sent until the read of the SASL response has timed out
-	Idle      bool // send nothing: wait for the server's read timeout
-	ThenEOF   bool // close the write side after the phases
+	Abort     bool   // with EOF: tear the transport down instead of an orderly close
+	IdleAuth  bool   // nothing is sent until the read of the SASL response has timed out
+	Idle      bool   // send nothing: wait for the server's read timeout
+	ThenEOF   bool   // close the write side after the phases
 	StallThen []byte // after the phases: stay silent until the server has reacted to its read timeout, then send this
 	Handshake bool
 	Hostname  string
@@ -913,7 +913,7 @@ var Debug = false
 // Stats of a replay run.
 type Stats struct {
 	Edges, Covered, Steps, Convs, Blocked, Walked, Hangs int
-	Samples                      []interface{}
+	Samples                                              []interface{}
 }
 
 // Tour covers every edge of g with greedy transition tours.
